@@ -1,7 +1,7 @@
 //! Runtime stubs and models shared by the `may` harnesses (DESIGN.md §3).  Everything here is a
 //! model of something *below the cut* (generator context switch, scheduler queues when the
-//! scheduler is not under test, std panic machinery, parking_lot slow paths).
-use super::gen::{FakeImpl, NONE};
+//! scheduler is not under test, std panic machinery, parking_lot slow paths, crossbeam cells).
+use super::gen;
 use super::np;
 use crate::coroutine_impl::{CoroutineImpl, EventResult, EventSource, EventSubscriber};
 use crate::scheduler::Scheduler;
@@ -9,41 +9,9 @@ use std::any::Any;
 use std::mem::MaybeUninit;
 use std::sync::Arc;
 
-pub type Cell = FakeImpl<EventResult, EventSubscriber>;
-
-/// raw model-generator cell of each coroutine actor (null = the actor is a plain thread)
-pub static mut CO: [*mut usize; np::MAXA] = [std::ptr::null_mut(); np::MAXA];
-/// total number of resumptions delivered to actor coroutines (run_coroutine or schedule)
-pub static mut RESUMES: [usize; np::MAXA] = [0; np::MAXA];
-/// number of times an actor coroutine really suspended (context switch taken)
-pub static mut SUSPENDS: [usize; np::MAXA] = [0; np::MAXA];
-/// set when a suspended coroutine can never be resumed again (reported by the harness)
-pub static mut STUCK: [bool; np::MAXA] = [false; np::MAXA];
 pub static mut SCHED: *const Scheduler = std::ptr::null();
 
-#[allow(clippy::mut_from_ref)]
-pub fn cell(raw: *mut usize) -> &'static mut Cell {
-    unsafe { &mut *(raw as *mut Cell) }
-}
-pub fn cur_cell() -> Option<&'static mut Cell> {
-    unsafe {
-        let raw = CO[np::CUR];
-        if raw.is_null() {
-            None
-        } else {
-            Some(cell(raw))
-        }
-    }
-}
-
-// ---- generator free functions --------------------------------------------------------------
-pub fn get_local_data_stub() -> *mut u8 {
-    match cur_cell() {
-        Some(c) => c.local,
-        None => std::ptr::null_mut(),
-    }
-}
-
+// ---- the value a resumed actor coroutine "yields": a subscriber that does nothing ----------------
 struct Noop;
 impl EventSource for Noop {
     fn subscribe(&mut self, co: CoroutineImpl) {
@@ -54,60 +22,70 @@ static mut NOOP: Noop = Noop;
 pub fn noop_subscriber() -> EventSubscriber {
     unsafe { EventSubscriber::new(&mut NOOP as &mut dyn EventSource as *mut dyn EventSource) }
 }
-
-/// The context switch.  The current actor coroutine hands `es` to its worker, which calls
-/// `subscribe(co)` after the switch; the actor then stays suspended until somebody resumes the
-/// coroutine object (model generator `resume()`, reached from the real `run_coroutine`, or the
-/// `Scheduler::schedule*` stubs).
-pub fn co_yield_with_stub<T: Any>(v: T) {
-    assert!(std::mem::size_of::<T>() == std::mem::size_of::<EventSubscriber>());
-    let es: EventSubscriber = unsafe { std::mem::transmute_copy(&v) };
-    std::mem::forget(v);
-    let me = np::cur();
-    let raw = unsafe { CO[me] };
-    assert!(!raw.is_null(), "co_yield_with outside a coroutine");
-    let c = cell(raw);
-    assert!(!c.suspended);
-    c.suspended = true;
-    c.resumed = false;
-    c.running = false;
-    c.next = Some(noop_subscriber());
-    unsafe { SUSPENDS[me] += 1 };
-    let co = unsafe { CoroutineImpl::from_raw(raw) };
-    // the worker thread runs subscribe after the context switch
-    es.subscribe(co);
-    let ok = np::block_until(|| cell(raw).resumed);
-    if !ok {
-        unsafe { STUCK[me] = true };
-        assert!(false, "coroutine suspended for ever: nobody will resume it (lost wake-up / lost time-out)");
-        kani::assume(false);
-    }
-    let c = cell(raw);
-    c.suspended = false;
-    c.resumed = false;
-    c.running = true;
-}
-
-pub fn co_get_yield_stub<A: Any>() -> Option<A> {
-    assert!(std::mem::size_of::<Option<A>>() == std::mem::size_of::<Option<EventResult>>());
-    match cur_cell() {
-        Some(c) => {
-            let v: Option<EventResult> = c.para.take();
-            let r: Option<A> = unsafe { std::mem::transmute_copy(&v) };
-            std::mem::forget(v);
-            r
-        }
-        None => None,
+impl gen::ModelYield for EventSubscriber {
+    fn noop() -> Self {
+        noop_subscriber()
     }
 }
 
+// ---- the resume parameter (generator `para` slot) -------------------------------------------------
+/// resume parameter of each model coroutine, as the kind the runtime reads from it
+/// (0 = none, 1 = TimedOut, 2 = Other (cancel), 3 = anything else).  Kept in a static indexed by
+/// the coroutine number, not in the heap cell: CBMC folds statics, not heap fields reached through
+/// data-dependent pointers.
+pub static mut PARA_KIND: [u8; 4] = [0; 4];
+/// number of the coroutine whose code is currently executing (harness-maintained)
+pub static mut CUR_CO: usize = 0;
+pub static mut NO_DECODE: bool = false;
+fn kind_code(e: &EventResult) -> u8 {
+    match e.kind() {
+        std::io::ErrorKind::TimedOut => 1,
+        std::io::ErrorKind::Other => 2,
+        _ => 3,
+    }
+}
+impl gen::ModelPara for EventResult {
+    fn stash(self, co: usize) {
+        let k = if unsafe { NO_DECODE } { 2 } else { kind_code(&self) };
+        std::mem::forget(self);
+        unsafe { PARA_KIND[co] = k };
+    }
+    fn squash(self) -> Self {
+        self
+    }
+}
+/// zero-sized payload of the boxed errors the model hands to real code (no String allocation)
+#[derive(Debug)]
+pub struct ModelErr;
+impl std::fmt::Display for ModelErr {
+    fn fmt(&self, _f: &mut std::fmt::Formatter<'_>) -> std::fmt::Result {
+        Ok(())
+    }
+}
+impl std::error::Error for ModelErr {}
+fn mk_para(k: u8) -> Option<EventResult> {
+    // freshly boxed errors, as the runtime builds its TimedOut / Canceled results
+    match k {
+        0 => None,
+        1 => Some(std::io::Error::new(std::io::ErrorKind::TimedOut, ModelErr)),
+        2 => Some(std::io::Error::other(ModelErr)),
+        _ => Some(std::io::Error::new(std::io::ErrorKind::InvalidData, ModelErr)),
+    }
+}
+/// stub for `crate::yield_now::get_co_para`
+pub fn get_co_para_stub() -> Option<EventResult> {
+    unsafe {
+        let k = PARA_KIND[CUR_CO];
+        PARA_KIND[CUR_CO] = 0;
+        mk_para(k)
+    }
+}
+/// stub for `generator::co_set_para` (the generic parameter is always EventResult)
 pub fn co_set_para_stub<A: Any>(v: A) {
     assert!(std::mem::size_of::<A>() == std::mem::size_of::<EventResult>());
     let e: EventResult = unsafe { std::mem::transmute_copy(&v) };
     std::mem::forget(v);
-    let c = cur_cell().unwrap();
-    let old = c.para.replace(e);
-    std::mem::forget(old);
+    gen::ModelPara::stash(e, unsafe { CUR_CO });
 }
 
 // ---- scheduler (when it is not the code under test) -----------------------------------------
@@ -115,22 +93,9 @@ pub fn install_scheduler() {
     let sched: Box<MaybeUninit<Scheduler>> = Box::new_uninit();
     unsafe { SCHED = Box::into_raw(sched) as *const Scheduler };
 }
+/// an uninitialised, never-read Scheduler allocation (every method reached on it is stubbed)
 pub fn get_scheduler_stub() -> &'static Scheduler {
     unsafe { &*SCHED }
-}
-/// `Scheduler::schedule(co)`: the coroutine becomes runnable and is resumed by some worker.
-/// In the model the resumption is delivered at once (its continuation runs when the NP engine
-/// returns to the suspended actor).
-pub fn schedule_stub(_s: &Scheduler, mut co: CoroutineImpl) {
-    let a = co.imp().actor;
-    if a != NONE {
-        unsafe { RESUMES[a] += 1 };
-    }
-    let ev = co.resume();
-    match ev {
-        Some(ev) => ev.subscribe(co),
-        None => assert!(false, "scheduled coroutine did not yield a subscriber"),
-    }
 }
 
 // ---- std / parking_lot machinery that Kani cannot compile -------------------------------------
@@ -146,3 +111,59 @@ pub fn set_hook_stub(h: Box<dyn Fn(&std::panic::PanicHookInfo<'_>) + 'static + S
 pub fn arc_drop_slow_stub<T: ?Sized, A: std::alloc::Allocator>(_a: &mut Arc<T, A>) {}
 pub fn nop() {}
 pub fn print_stub(_a: std::fmt::Arguments<'_>) {}
+/// `yield_now()` inside Park is only reached while `wait_kernel` is set, i.e. while the worker is
+/// still inside `subscribe` of this coroutine's previous suspension.  In the sequential model a
+/// continuation never overlaps its own `subscribe`, so the call must be unreachable (asserted).
+pub fn yield_now_unreachable() {
+    assert!(false, "model: yield_now reached (wait_kernel set while the coroutine runs)");
+    kani::assume(false);
+}
+/// `impl Drop for core::io::CustomOwner` frees the boxed payload of a custom io::Error through a
+/// `Box<dyn Error>` virtual drop.  CBMC cannot resolve that vtable (the bit-packed repr pointer is
+/// merged over several heap objects) and fans out over every drop glue of the program, which
+/// costs minutes per dropped error.  The model leaks the payload instead; nothing any property
+/// observes depends on it.
+pub fn custom_owner_drop_stub(_c: &mut core::io::CustomOwner) {}
+/// `ErrorKind::from_prim` (a 40-way match) is only called when a *kind-only* io::Error is decoded.
+/// In the harnesses that use this stub every io::Error is a boxed one (`Error::new/other`, as the
+/// runtime builds its TimedOut / Canceled results), so the call must be unreachable; this is
+/// asserted, not assumed.
+pub fn from_prim_unreachable(_x: u32) -> Option<std::io::ErrorKind> {
+    assert!(false, "model: a kind-only io::Error was decoded (from_prim reached)");
+    kani::assume(false);
+    None
+}
+
+// ---- crossbeam AtomicCell (behind AtomicOption): modelled as one atomic cell ---------------------
+// The real implementation moves the value through an AtomicU64 (pointer -> integer -> pointer),
+// which CBMC cannot track precisely (every later dereference fans out over all objects).  The
+// model keeps the typed value in place; each operation is one schedule point.  Old values are
+// returned or forgotten, never dropped here.
+use crossbeam::atomic::AtomicCell;
+pub fn cell_swap<T>(c: &AtomicCell<T>, v: T) -> T {
+    np::point();
+    unsafe {
+        let p = c.as_ptr();
+        let old = std::ptr::read(p);
+        std::ptr::write(p, v);
+        old
+    }
+}
+pub fn cell_store<T>(c: &AtomicCell<T>, v: T) {
+    np::point();
+    unsafe {
+        let p = c.as_ptr();
+        let old = std::ptr::read(p);
+        std::ptr::write(p, v);
+        std::mem::forget(old);
+    }
+}
+pub fn cell_take<T: Default>(c: &AtomicCell<T>) -> T {
+    np::point();
+    unsafe {
+        let p = c.as_ptr();
+        let old = std::ptr::read(p);
+        std::ptr::write(p, T::default());
+        old
+    }
+}
